@@ -6,23 +6,57 @@ import json
 from . import common, mprun, export, skeleton, minipy as mp
 
 
+def _sample(seq, n, rnd):
+    seq = list(seq)
+    if len(seq) <= n:
+        return seq
+    return [seq[i] for i in sorted(rnd.sample(range(len(seq)), n))]
+
+
+# (family, max statements, sample size quick, sample size thorough); None = all
+FAMILY_PLAN = [
+    ('exc', 5, 700, None), ('exc', 6, 0, 6000),
+    ('loop', 5, 700, None), ('loop', 6, 0, 6000),
+    ('loopexc', 5, 500, None),
+    ('ctx', 5, 300, 3000),
+]
+
+
 def program_set(tier, seed, loop_else=False):
-    """Skeletons enumerated by MiniPyGen (exhaustive up to the bound) + seeded random programs."""
+    """The program batch of the MiniPy family.
+
+    Exhaustive: every skeleton of spec/MiniPyGen.tla with <= 4 statements (all productions).  Deeper, focused
+    enumerations of production families (exceptions, loops+jumps, loops+exceptions, context managers, nested
+    functions): enumerated completely by TLC, then all (thorough) or a seeded sample (quick) is decorated.
+    Plus seeded random programs (vf/minipy.RandomGen) of several profiles.
+    """
+    import random
+    rnd = random.Random(seed * 9176 + 5)
+    quick = tier == 'quick'
     tlcs = []
-    if tier == 'quick':
-        sk, r1 = skeleton.enumerate_skeletons(4, 3, 2, loop_else=loop_else)
-        progs = skeleton.decorated(sk, 1, seed)
-        sk2, r2 = skeleton.enumerate_skeletons(3, 2, 2, loop_else=loop_else, funcs=True)
-        progs += skeleton.decorated([s for s in sk2 if 'def' in s], 1, seed + 1)
-        progs += mprun.random_programs(400, seed, lo=2, hi=3, maxdepth=3, loop_else=loop_else)
-        tlcs = [r1, r2]
-    else:
-        sk, r1 = skeleton.enumerate_skeletons(5, 3, 2, loop_else=loop_else)
-        progs = skeleton.decorated(sk, 1, seed)
-        sk2, r2 = skeleton.enumerate_skeletons(4, 3, 2, loop_else=loop_else, funcs=True)
-        progs += skeleton.decorated([s for s in sk2 if 'def' in s], 2, seed + 1)
-        progs += mprun.random_programs(4000, seed, lo=2, hi=4, maxdepth=4, loop_else=loop_else)
-        tlcs = [r1, r2]
+    sk, r = skeleton.enumerate_skeletons(4, 3, 2, loop_else=loop_else)
+    tlcs.append(r)
+    progs = skeleton.decorated(sk, 1, seed)
+    for fam, n, nq, nt in FAMILY_PLAN:
+        want = nq if quick else nt
+        if want == 0:
+            continue
+        sk, r = skeleton.enumerate_skeletons(n, 3, 2, loop_else=loop_else, allowed=skeleton.FAMILIES[fam])
+        tlcs.append(r)
+        sk = [s for s in sk if sum(1 for t in s if t not in ('end', 'else', 'except', 'finally')) > 4]   # <=4 already covered
+        if want is not None:
+            sk = _sample(sk, want, rnd)
+        progs += skeleton.decorated(sk, 1, seed + len(progs))
+    sk, r = skeleton.enumerate_skeletons(4 if quick else 5, 2, 2, loop_else=loop_else, funcs=True, allowed=skeleton.FAMILIES['fun'])
+    tlcs.append(r)
+    sk = [s for s in sk if 'def' in s]
+    if quick:
+        sk = _sample(sk, 500, rnd)
+    progs += skeleton.decorated(sk, 1 if quick else 2, seed + 1, closure_bias=True)
+    nrand = 400 if quick else 5000
+    progs += mprun.random_programs(nrand, seed, lo=2, hi=3 if quick else 4, maxdepth=3, loop_else=loop_else)
+    progs += mprun.random_programs(nrand // 2, seed + 7, lo=2, hi=4, maxdepth=3, loop_else=loop_else, with_=False, calls=False,
+                                   dele=False, exprstmt=False)      # exception / jump focused
     # very large random programs add cost, not shapes
     progs = [p for p in progs if len(p['nodes']) <= 45]
     return progs, tlcs
@@ -45,16 +79,51 @@ def parse_bad(bad):
     return out
 
 
+_EXPORT = {}
+
+
+def _export_chunk(idx):
+    fn, progs = _EXPORT['fn'], _EXPORT['progs']
+    out = []
+    for i in idx:
+        try:
+            out.append((fn(progs[i]), None))
+        except common.MachineryError as e:
+            out.append((None, ('MachineryError', str(e))))
+        except Exception as e:
+            out.append((None, (type(e).__name__, str(e)[:300])))
+    return out
+
+
+def _parallel_export(progs, claims_fn, procs=12):
+    import multiprocessing
+    _EXPORT['fn'], _EXPORT['progs'] = claims_fn, progs
+    n = len(progs)
+    if n < 200:
+        return _export_chunk(range(n))
+    parts = [list(range(i, n, procs)) for i in range(procs)]
+    with multiprocessing.get_context('fork').Pool(procs) as pool:
+        res = pool.map(_export_chunk, parts)
+    out = [None] * n
+    for part, r in zip(parts, res):
+        for i, x in zip(part, r):
+            out[i] = x
+    return out
+
+
 def export_all(rep, progs, claims_fn=export.all_claims):
     """Export the real analyses' claims; a program on which the analyses themselves fail is a violation
     (they must handle every function of the class) and is left out of the exploration."""
     keep, claims = [], []
-    for p in progs:
+    results = _parallel_export(progs, claims_fn)
+    for p, (c, err) in zip(progs, results):
+        if err is not None and err[0] == 'MachineryError':
+            raise common.MachineryError(err[1])
         try:
-            c = claims_fn(p)
-        except common.MachineryError:
-            raise
+            if err is not None:
+                raise RuntimeError(err)
         except Exception as e:
+            e = type(err[0], (Exception,), {})(err[1])
             rep.violation('%s:analysis-error:%s' % (rep.prop.lower(), type(e).__name__),
                           'the analyses fail on a function of the class: %s: %s' % (type(e).__name__, str(e)[:200]),
                           dict(source=mp.render(p)[0]))
